@@ -556,6 +556,11 @@ class Executor:
         raise Unsupported("operand: " + s)
 
     def binop(self, op, a, b):
+        # an opaque named constant in arithmetic: a fixed but unknown number of the other operand's width
+        if isinstance(a, Const) and isinstance(b, BV):
+            a = BV(z3.BitVec(self.sym(("const", a.text)), b.term.size()), b.signed)
+        elif isinstance(b, Const) and isinstance(a, BV):
+            b = BV(z3.BitVec(self.sym(("const", b.text)), a.term.size()), a.signed)
         if isinstance(a, BoolV) and isinstance(b, BoolV):
             if op == "Eq":
                 return BoolV(a.term == b.term)
